@@ -1472,6 +1472,23 @@ GC = [
          selfopt={"auto_waste": (("main", "wst"), "gc_auto_waste findUsable fetchTracks addTrack epochs main wst")}),
 ]
 
+# ---- the voting parameters the trackers hand to `SortVoting` (C02: an unmatched detection counts as the threshold)
+VP_SNIP = r"let voting = SortVoting::new\(.*?\);"
+VP_COMMON = dict(group="VoteParams", fn="predict_with_scene", snippet=VP_SNIP, imperative=True, result="voting",
+                 sig="(quant : Rat → Int) (mult mahaThr : Rat) (method : PosKind) (num_candidates : Nat) (shard_stats : List Nat) : SVP",
+                 fieldpath={"self.method": "method"}, lockmethods=("read", "unwrap"),
+                 pctor={"PositionalMetricType::Mahalanobis": "PosKind.maha", "PositionalMetricType::IoU": "PosKind.iou"},
+                 path={"MAHALANOBIS_NEW_TRACK_THRESHOLD": "mahaThr"},
+                 method={"read": "{0}", "unwrap": "{0}", "shard_stats": "shard_stats", "iter": "{0}", "sum": "List.sum {0}"},
+                 call={"SortVoting::new": "sort_voting_new quant mult {0} {1} {2}"})
+VOTEPARAMS = [
+    dict(group="VoteParams", name="sort_voting_new", file="trackers/sort/voting.rs", impl=r"impl SortVoting \{", fn="new",
+         sig="(quant : Rat → Int) (mult : Rat) (threshold : Rat) (candidates_num tracks_num : Nat) : SVP",
+         struct={"SortVoting": ("SVP", {"threshold": "threshold", "candidate_num": "candidate_num", "track_num": "track_num"})}, Self="SortVoting",
+         cast={"i64": "quant {0}"}, path={"F32_U64_MULT": "mult"}),
+    dict(VP_COMMON, name="sort_voting_params", file="trackers/sort/simple_api.rs", impl=r"impl Sort \{"),
+]
+
 # ---- the per-detection loop of `Sort::predict_with_scene`: apply the winners, one record per detection (C01)
 def pick_apply(stmts):
     """from `let mut res = Vec::default();` to the loop that fills it (the tail `res` is the value)"""
@@ -1644,7 +1661,7 @@ LOGIC = [
 def gen(repo, cfgs, header, footer):
     out, unread = [header], []
     for c in cfgs:
-        if c in LOGIC or c in TRACK or c in VOTING or c in TRACK_DIST or c in STORE or c in RECORDS or c in AUTOWASTE or c in VISVOTE or c in STORE_MAP or c in STORE_ADD or c in SORTVOTE or c in IDLE or c in TRACK_BUILD or c in APPLY or c in GC:
+        if c in LOGIC or c in TRACK or c in VOTING or c in TRACK_DIST or c in STORE or c in RECORDS or c in AUTOWASTE or c in VISVOTE or c in STORE_MAP or c in STORE_ADD or c in SORTVOTE or c in IDLE or c in TRACK_BUILD or c in APPLY or c in GC or c in VOTEPARAMS:
             c = dict(c, scalar=c.get("scalar", "Rat"))
         path = os.path.join(repo, "src", c["file"])
         try:
@@ -1877,6 +1894,16 @@ K_IMPORTS = {"Optimize": "import SimVerif.Gen.KCache\nimport SimVerif.Gen.KKalma
              "OptimizeV": "import SimVerif.Gen.KOptimize\nimport SimVerif.Gen.KVMetric\nimport SimVerif.Gen.LGallery\n", "Cache": "import SimVerif.Gen.KBox\nimport SimVerif.Gen.KInter\nimport SimVerif.Gen.KClip\n", "Feat": "import SimVerif.Model.Feature\n", "Clip": "import SimVerif.Gen.KInter\n", "Inter": "import SimVerif.Gen.KRadius\n", "Dist": "import SimVerif.Gen.KRadius\n",
              "SMetric": "import SimVerif.Gen.KInter\nimport SimVerif.Gen.KKalman\n",
              "VMetric": "import SimVerif.Gen.KSMetric\nimport SimVerif.Gen.KRadius\nimport SimVerif.Model.VisualMetric\n"}
+PRELUDE_VP = """/-- `PositionalMetricType` (decision kernels: the IoU threshold as a rational) -/
+inductive PosKind where
+  | maha
+  | iou (thr : Rat)
+/-- `SortVoting` -/
+structure SVP where
+  threshold : Int
+  candidate_num : Nat
+  track_num : Nat
+"""
 PRELUDE_OPTV = """/-- the fields of `VisualAttributes` the observation step reads or writes -/
 structure VAttrs (α F : Type) where
   predicted_boxes : List (CBox α)
@@ -1952,6 +1979,7 @@ def main():
     jobs.append(("LStoreMap.lean", STORE_MAP + STORE_ADD, "import SimVerif.Model.Track\n" + HEADER_L + PRELUDE_STOREMAP, "SimVerif.Gen.L"))
     jobs.append(("LSortVoting.lean", SORTVOTE, "import SimVerif.Gen.LBase\n" + HEADER_L + PRELUDE_SORTVOTE, "SimVerif.Gen.L"))
     jobs.append(("LIdle.lean", IDLE, "import SimVerif.Gen.LEpoch\nimport SimVerif.Gen.LEpochDb\n" + HEADER_L, "SimVerif.Gen.L"))
+    jobs.append(("LVoteParams.lean", VOTEPARAMS, HEADER_L + PRELUDE_VP, "SimVerif.Gen.L"))
     jobs.append(("LGc.lean", GC, "import SimVerif.Gen.LEpoch\n" + HEADER_L, "SimVerif.Gen.L"))
     jobs.append(("LApply.lean", APPLY, "import SimVerif.Gen.LBase\n" + HEADER_L, "SimVerif.Gen.L"))
     jobs.append(("LTrackBuild.lean", TRACK_BUILD, "import SimVerif.Model.Track\n" + HEADER_L + "open SimVerif\n", "SimVerif.Gen.L"))
